@@ -15,7 +15,10 @@ Identity instances (a regular expression matching nothing, an empty mapping, a p
 nothing, a condition scope that matches nothing - also one that matches nothing because it is negated) must leave every
 query unchanged.  A condition scope is the condition group of the processing item as the pipeline YAML spells it
 (`field_name_conditions`, `field_name_cond_op`, `field_name_cond_not`); the Lean rewrite receives the group
-(`Rewrite.groupFields` / `groupItems`)."""
+(`Rewrite.groupFields` / `groupItems`).
+Hash-field splitting (`hashes_fields`) has its own stream: rules with hash lists x all parameters of the item; the oracle is
+`Rewrite.hashesFields` (one item per algorithm whatever the spelling of its name in the rule, OR-linked; an item without a
+valid entry is the documented failure and must fail in the code as well)."""
 from __future__ import annotations
 import copy, json, random, re
 from .common import Verdict, cps, outcome_of_exception
@@ -34,7 +37,12 @@ RULE = ("rules as in C01 (smaller pool) x single transformations with parameter 
         "; fixed rare-parameter pairs (added condition + in-place items after a prior rule, set_field + add_field after a prior rule, a prefix occurring twice in a field name, map_string to '' and [])"
         "; condition scopes = condition groups as written in pipeline YAML: one or two field name conditions, field_name_cond_op and/or, field_name_cond_not, and the negation "
         "flags of the groups that have no conditions (detection_item_cond_not, rule_cond_not: no effect); named kinds also under negated scopes; one-to-many prefix mapping as a named kind; "
-        "a fixed stream of field names over a two-letter alphabet (prefix and remainder share characters) x prefix / suffix / prefix mappings with scalar and list targets")
+        "a fixed stream of field names over a two-letter alphabet (prefix and remainder share characters) x prefix / suffix / prefix mappings with scalar and list targets"
+        "; field references of every comparison kind (fieldref, fieldref|startswith, fieldref|endswith, fieldref|contains; one or two referenced fields) in the random and the hand-picked rules; "
+        "keywords whose first / last character is a single- or multi-character wildcard or an escaped wildcard, mapped to one field and to a list of fields (named kind kw2field_n, Lean kwToFields); "
+        "hash stream: rules with Hashes/Hash/other hash lists (entries ALGO=hash, ALGO|hash, bare digests, wildcards around them, algorithm names in upper, lower and mixed spelling, entries of no "
+        "valid algorithm) x hashes_fields with every parameter (valid_hash_algos, field_prefix, drop_algo_prefix, field_to_parse, field name conditions; also inside a nest before / after a field "
+        "mapping), judged by the Lean rewrite Rewrite.hashesFields incl. the documented failure when no entry is valid, plus hand-picked pairs for every entry format")
 ASSUMPTIONS = c01.ASSUMPTIONS[:2] + [
     "the documented rewrites are the Lean functions of Spec/Rewrite.lean, interpreted by the Lean rule semantics; the Python rewriters of this harness are a cross-check (drift)",
     "Python re performs the substitutions of replace_string (the substitution function is a parameter of the rewrite, sent as a table over the plain forms of the strings of the rule)",
@@ -54,9 +62,9 @@ def gen_rule(rnd):
             d = {}
             for _ in range(rnd.choice([1, 2, 2])):
                 f = rnd.choice(FIELDS)
-                m = rnd.choice(["", "", "|contains", "|startswith", "|cased", "|contains|all", "|fieldref", "|all"])
-                if m == "|fieldref":
-                    d[f + m] = rnd.choice(FIELDS)
+                m = rnd.choice(["", "", "|contains", "|startswith", "|cased", "|contains|all", "|fieldref", "|all", "|fieldref" + rnd.choice(REF_KINDS)])
+                if m.startswith("|fieldref"):
+                    d[f + m] = rnd.choice(FIELDS) if rnd.random() < 0.75 else rnd.sample(FIELDS, 2)
                 elif rnd.random() < 0.6:
                     d[f + m] = rnd.choice(STRS)
                 else:
@@ -65,7 +73,7 @@ def gen_rule(rnd):
         elif r < 0.85:
             dets[nm] = [{rnd.choice(FIELDS): rnd.choice(STRS)}, {rnd.choice(FIELDS): rnd.choice(STRS)}]
         else:
-            dets[nm] = rnd.choice([["kw1", "kw*2"], "single", ["x", "y z"]])
+            dets[nm] = rnd.choice([["kw1", "kw*2"], "single", ["x", "y z"], rnd.sample(KEYWORDS, rnd.choice([1, 2]))])
     names = list(dets)
     conds = {1: ["{0}", "not {0}"], 2: ["{0} and {1}", "{0} or not {1}", "1 of them"], 3: ["{0} and ({1} or {2})", "all of them", "{0} and not 1 of sel*"]}[len(names)]
     rule = {"dets": dets, "cond": rnd.choice(conds).format(*names), "logsource": {"category": "cat", "product": "prod"}}
@@ -75,6 +83,10 @@ def gen_rule(rnd):
 
 
 TARGETS = ["m1", "m2", "x.y", "fieldB", "win.user", "t_3"]
+# a field reference is an equality, a prefix, a suffix or a substring comparison (modifier after `fieldref`)
+REF_KINDS = ["", "|startswith", "|endswith", "|contains"]
+# keywords with every kind of first / last character: plain, multi- and single-character wildcard, escaped wildcard
+KEYWORDS = ["failed login?", "?x", "user=?", "*pre", "suf*", "*both*", "?q?", "what\\?", "\\*lit", "end\\*", "a?c", "*", "?", "x*?", "?*y"]
 
 
 def rand_cond(rnd):
@@ -111,7 +123,7 @@ def rand_item(rnd, depth=0):
     if ty == "field_name_mapping":
         y["mapping"] = {f: (rnd.choice(TARGETS) if rnd.random() < 0.6 else rnd.sample(TARGETS, rnd.choice([2, 3]))) for f in rnd.sample(FIELDS, rnd.choice([1, 2, 3]))}
         if rnd.random() < 0.15:
-            y["_kw"] = rnd.choice(["msg", "raw"])      # the keyword entry (key None) is kept apart: JSON has no null keys
+            y["_kw"] = rnd.choice(["msg", "raw", ["msg", "raw"], ["raw"]])      # the keyword entry (key None) is kept apart: JSON has no null keys
             scoped = False
     elif ty == "field_name_prefix":
         y["prefix"] = rnd.choice(["p.", "_", "x-"])
@@ -161,6 +173,75 @@ def rand_item(rnd, depth=0):
     return y
 
 
+# ---- hash-field splitting: `Hashes: [ALGO=hash, …]` -> one field per algorithm
+HASH_LEN = {"MD5": 32, "SHA1": 40, "SHA256": 64, "SHA512": 128, "IMPHASH": 32}
+# digest lengths (hex characters) of the algorithms whose bare digests are recognisable ("can auto-detect hash types based on their length")
+BY_LENGTH = [[32, "MD5"], [40, "SHA1"], [64, "SHA256"], [128, "SHA512"]]
+
+
+def spell(rnd, algo):
+    """an algorithm name as rules spell it"""
+    return rnd.choice([algo, algo, algo.lower(), algo.capitalize(), algo[0].lower() + algo[1:], "".join(c.lower() if i % 2 else c for i, c in enumerate(algo))])
+
+
+def gen_hash_entry(rnd):
+    r = rnd.random()
+    if r < 0.08:
+        return rnd.choice(["CRC32=ABCD1234", "abcdef", "TLSH|0011", "=", "MD5=1=2"])      # no valid algorithm / not an entry
+    algo = rnd.choice(list(HASH_LEN))
+    h = "".join(rnd.choice("0123456789ABCDEF") for _ in range(HASH_LEN[algo]))
+    if rnd.random() < 0.2:
+        h = h.lower()
+    if r < 0.25 and algo != "IMPHASH":
+        e = h                                   # a bare digest
+    else:
+        e = spell(rnd, algo) + rnd.choice(["=", "=", "=", "|"]) + h
+    if rnd.random() < 0.15:
+        e = rnd.choice(["*", ""]) + e + rnd.choice(["*", "", "?"])
+    return e
+
+
+def gen_hash_rule(rnd):
+    dets = {}
+    for nm in rnd.sample(["sel", "flt"], rnd.choice([1, 1, 2])):
+        f = rnd.choice(["Hashes", "Hashes", "Hash", "FileHash", "hashes"])
+        m = rnd.choice(["", "", "", "|contains", "|contains", "|endswith", "|startswith", "|all", "|contains|all"])
+        n = rnd.choice([1, 1, 2, 2, 3])
+        d = {f + m: gen_hash_entry(rnd) if n == 1 and rnd.random() < 0.6 else [gen_hash_entry(rnd) for _ in range(n)]}
+        if rnd.random() < 0.3:
+            d[rnd.choice(["fieldA", "win.image|endswith"])] = rnd.choice(["abc", "foo"])
+        if rnd.random() < 0.08:
+            d["Hash" if not f.startswith("Hash|") and f != "Hash" else "Hashes"] = rnd.choice([5, None, gen_hash_entry(rnd)])
+        dets[nm] = d if rnd.random() < 0.85 else [d, {"fieldB": "val"}]
+    names = list(dets)
+    cond = rnd.choice({1: ["{0}", "not {0}"], 2: ["{0} and not {1}", "{0} or {1}", "1 of them"]}[len(names)]).format(*names)
+    rule = {"dets": dets, "cond": cond, "logsource": LS}
+    if rnd.random() < 0.2:
+        rule["fields"] = ["Hashes", "fieldA"]
+    return rule
+
+
+def gen_hash_item(rnd):
+    """a hashes_fields item with every parameter pipeline YAML can give it"""
+    y = {"type": "hashes_fields", "valid_hash_algos": rnd.choice([["MD5", "SHA1", "SHA256"], ["MD5", "SHA1", "SHA256", "SHA512", "IMPHASH"], ["SHA256"], ["SHA1", "IMPHASH"]])}
+    if rnd.random() < 0.8:
+        y["field_prefix"] = rnd.choice(["File", "File", "hash.", "Hashes", "h_"])
+    if rnd.random() < 0.2:
+        y["drop_algo_prefix"] = rnd.random() < 0.8
+    if rnd.random() < 0.25:
+        y["field_to_parse"] = rnd.choice([["FileHash"], ["Hash"], ["Hashes", "FileHash", "hashes"], []])
+    if rnd.random() < 0.2:
+        y["field_name_conditions"] = [{"type": rnd.choice(["include_fields", "exclude_fields"]), "fields": rnd.sample(["Hashes", "Hash", "FileHash", "fieldA"], rnd.choice([1, 2]))}]
+        if rnd.random() < 0.3:
+            y["field_name_cond_not"] = True
+    r = rnd.random()
+    if r < 0.1:      # the split fields are fields like any other for the items that follow
+        return {"type": "nest", "items": [y, rnd.choice([{"type": "field_name_prefix", "prefix": "p."}, {"type": "field_name_mapping", "mapping": {"FileSHA256": ["a", "b"], "FileMD5": "md5"}}])]}
+    if r < 0.2:      # … and a field renamed to `Hashes` before is split
+        return {"type": "nest", "items": [{"type": "field_name_mapping", "mapping": {"FileHash": "Hashes"}}, y]}
+    return y
+
+
 def gen_transformation(rnd):
     if rnd.random() < 0.35:
         return {"kind": "rand", "scope": None, "yaml": rand_item(rnd)}
@@ -182,6 +263,12 @@ FIXED_RULES = [
     {"dets": {"sel": [{"fieldA": "abc"}, {"fieldB|endswith": ["foo", "Abc*"]}], "sel2": {"fieldA|cased": "Abc"}}, "cond": "1 of sel*", "logsource": LS},
     {"dets": {"sel": {"fieldA|all": ["abc", "foo"], "fieldB": None}}, "cond": "not sel", "logsource": LS},
     {"dets": {"sel": {"fieldA|contains|all": "abc", "fieldB|all": ["abc"]}}, "cond": "sel", "logsource": LS},      # 'all' with a single value
+    # field references compared as suffix / prefix / substring, the referenced field being one the named kinds map
+    {"dets": {"sel": {"win.nt|fieldref|endswith": "fieldA", "fieldB|fieldref|startswith": ["win.user", "fieldA"]}, "flt": {"win.image|fieldref|contains": "fieldA"}}, "cond": "sel and not flt", "logsource": LS,
+     "fields": ["fieldA"]},
+    # keywords whose first / last character is a single-character wildcard, a multi-character wildcard, an escaped wildcard
+    {"dets": {"sel": ["failed login?", "?x", "suf*"], "kw2": ["what\\?", "\\*lit"]}, "cond": "sel or kw2", "logsource": LS},
+    {"dets": {"sel": ["?q?", "*pre", "x*?"], "flt": {"fieldA": "abc"}}, "cond": "sel and not flt", "logsource": LS},
 ]
 PH_RULES = [
     {"dets": {"sel": {"fieldA|expand": "a%p%b", "fieldB": "v"}}, "cond": "sel", "logsource": LS},
@@ -191,7 +278,7 @@ PH_RULES = [
     {"dets": {"sel": {"fieldA|expand": ["%p%", "%q%", "lit"]}}, "cond": "sel", "logsource": LS},
     {"dets": {"sel": {"fieldA|contains|all|expand": "%p%", "fieldB|expand|all": "a%p%"}}, "cond": "sel", "logsource": LS},   # 'all' with a single placeholder value
 ]
-NAMED_KINDS = ["map11", "map1n", "kw2field", "prefix", "suffix", "prefixmap", "prefixmap_n", "drop", "addcond", "addcond_neg", "addcond_tpl",
+NAMED_KINDS = ["map11", "map1n", "kw2field", "kw2field_n", "prefix", "suffix", "prefixmap", "prefixmap_n", "drop", "addcond", "addcond_neg", "addcond_tpl",
                "replace", "replace_id", "mapstr", "mapstr_n", "mapstr_id", "case_lower", "case_upper", "setvalue", "convert_str",
                "map_empty", "ph_id", "scope_none", "scope_none_not", "nest", "add_field", "remove_field", "set_field"]
 IDENTITY_KINDS = ("replace_id", "mapstr_id", "map_empty", "ph_id", "scope_none", "scope_none_not")
@@ -205,6 +292,21 @@ AB_ITEMS = [{"type": "field_name_prefix_mapping", "mapping": {"a": "z_"}}, {"typ
             {"type": "field_name_prefix_mapping", "mapping": {"ab.": "z_", "a": "q"}}, {"type": "field_name_prefix_mapping", "mapping": {"ab.": ["ab.ab.", "b"]}},
             {"type": "field_name_prefix", "prefix": "a."}, {"type": "field_name_suffix", "suffix": ".a"},
             {"type": "field_name_mapping", "mapping": {"a": "aa", "aa": ["a", "ab"], "ab": "a.b"}}]
+
+
+_H = {"MD5": "987B65CD9B9F4E9A1AFD8F8B48CF64A7", "SHA1": "5F1CBC3D99558307BC1250D084FA968521482025", "SHA256": "A1" * 32}
+_HY = {"type": "hashes_fields", "valid_hash_algos": ["MD5", "SHA1", "SHA256"], "field_prefix": "File"}
+# every documented entry format x spelling of the algorithm, met in every run
+FIXED_HASH_PAIRS = [
+    ({"dets": {"sel": {"Hashes": ["SHA1=" + _H["SHA1"], "MD5=" + _H["MD5"]]}}, "cond": "sel", "logsource": LS}, _HY),
+    ({"dets": {"sel": {"Hashes": "sha256=" + _H["SHA256"]}}, "cond": "sel", "logsource": LS}, _HY),
+    ({"dets": {"sel": {"Hashes": ["MD5=" + _H["MD5"], "md5=" + _H["MD5"][::-1], "Md5|" + "0" * 32]}}, "cond": "not sel", "logsource": LS}, _HY),
+    ({"dets": {"sel": {"Hashes|contains": "Sha1=" + _H["SHA1"], "fieldA": "abc"}}, "cond": "sel", "logsource": LS}, _HY),
+    ({"dets": {"sel": {"Hash": [_H["SHA1"], "*" + _H["MD5"] + "*", "IMPHASH=" + "1" * 32]}}, "cond": "sel", "logsource": LS}, _HY),
+    ({"dets": {"sel": {"Hashes|endswith": ["sha1|" + _H["SHA1"], "CRC32=00"]}, "flt": {"Hashes": "nothing=here"}}, "cond": "sel and not flt", "logsource": LS}, _HY),
+    ({"dets": {"sel": {"Hashes": ["sha256=" + _H["SHA256"], "SHA1=" + _H["SHA1"]]}}, "cond": "sel", "logsource": LS}, dict(_HY, drop_algo_prefix=True)),
+    ({"dets": {"sel": {"Hashes": "sha256=" + _H["SHA256"], "FileHash": "mD5=" + _H["MD5"]}}, "cond": "sel", "logsource": LS}, dict(_HY, field_to_parse=["FileHash"], field_prefix="")),
+]
 
 
 def gen_cases(tier, seed, gen, effort):
@@ -244,6 +346,11 @@ def gen_cases(tier, seed, gen, effort):
         r = R({"sel": {names[0]: "abc", names[1] + "|contains": "val"}, "flt": {"fieldA|fieldref": names[2], names[2]: 5}}, "sel and not flt", fields=[names[1], names[2], "other"])
         for y in AB_ITEMS:
             cases.append({"rule": copy.deepcopy(r), "t": {"kind": "rand", "scope": None, "yaml": copy.deepcopy(y)}})
+    # hash-field splitting: rules with hash lists x hashes_fields with all parameters (judged by the Lean rewrite alone)
+    for _ in range((500 if not thorough else 8000) * effort):
+        cases.append({"rule": gen_hash_rule(rnd), "t": {"kind": "rand", "scope": None, "yaml": gen_hash_item(rnd)}, "prior": rnd.random() < 0.15})
+    for r, y in FIXED_HASH_PAIRS:
+        cases.append({"rule": copy.deepcopy(r), "t": {"kind": "rand", "scope": None, "yaml": copy.deepcopy(y)}})
     for r in PH_RULES:
         for k in ("ph_value", "ph_wild", "ph_value_nest"):
             if k == "ph_wild" and "|re" in repr(r["dets"]):
@@ -269,6 +376,7 @@ def t_yaml(t):
         "map11": {"type": "field_name_mapping", "mapping": {"fieldA": "mappedA", "win.user": "user"}},
         "map1n": {"type": "field_name_mapping", "mapping": {"fieldA": ["m1", "m2"]}},
         "kw2field": {"type": "field_name_mapping", "mapping": {None: "msg"}},
+        "kw2field_n": {"type": "field_name_mapping", "mapping": {None: ["msg", "raw"]}},
         "prefix": {"type": "field_name_prefix", "prefix": "p."},
         "suffix": {"type": "field_name_suffix", "suffix": ".s"},
         "prefixmap": {"type": "field_name_prefix_mapping", "mapping": {"win.": "w_"}},
@@ -522,6 +630,9 @@ def rewrite_det(t, d):
         if k == "kw2field":
             # keyword -> field with substring semantics
             return {"map": [[cps("msg|contains"), pv(vals)]]} if all(isinstance(v, str) for v in vals) else None
+        if k == "kw2field_n":
+            # … to several fields: the OR of one substring item per field
+            return {"list": [{"map": [[cps(g + "|contains"), pv(vals)]]} for g in ("msg", "raw")]} if all(isinstance(v, str) for v in vals) else None
         if k in VALUE_KINDS and in_scope(t, None):
             new = []
             for v in vals:
@@ -654,7 +765,7 @@ def tr_desc(y, rule, names=None, universe=None):
         m = y["mapping"]
         r = {"t": "rename", "fn": {"k": "table", "tbl": [[cps(a), [cps(x) for x in aslist(b)]] for a, b in m.items() if a is not None]}, "scope": sc}
         if None in m:
-            kw = {"t": "kw2field", "g": cps(m[None])}
+            kw = {"t": "kw2field", "g": cps(m[None])} if isinstance(m[None], str) else {"t": "kw2fields", "gs": [cps(g) for g in m[None]]}
             return kw if len(m) == 1 else {"t": "nest", "items": [r, kw]}
         return r
     if ty == "field_name_prefix":
@@ -690,6 +801,9 @@ def tr_desc(y, rule, names=None, universe=None):
         return {"t": "removeFields", "fields": [cps(f) for f in aslist(y["field"])]}
     if ty == "set_field":
         return {"t": "setFields", "fields": [cps(f) for f in y["fields"]]}
+    if ty == "hashes_fields":
+        return {"t": "hashes", "algos": [cps(a) for a in y["valid_hash_algos"]], "pfx": cps(y.get("field_prefix", "")), "drop": bool(y.get("drop_algo_prefix", False)),
+                "fields": [cps(f) for f in y.get("field_to_parse", ["Hashes", "Hash"])], "byLength": [[n, cps(a)] for n, a in BY_LENGTH], "scope": sc}
     if ty in ("wildcard_placeholders", "value_placeholders"):
         return {"t": "nest", "items": []}      # placeholders are part of the rule semantics (C17); the generated rules have none
     raise ValueError(f"no Lean rewrite for {ty}")
@@ -749,12 +863,21 @@ def run_impl(case):
         return {"outcome": outcome_of_exception(e), "msg": str(e)[:200]}
 
 
+def _has_type(y, ty):
+    return y.get("type") == ty or any(_has_type(x, ty) for x in y.get("items", []))
+
+
+def _no_valid_hash(impl):
+    """the documented failure of hashes_fields ("Raises: if no valid hash algorithms were found in the detection item")"""
+    return impl["outcome"] == "sigma:SigmaValueError" and "No valid hash algorithm" in (impl.get("msg") or "")
+
+
 def make_request(case, impl, gen):
-    if impl["outcome"] != "ok":
+    if impl["outcome"] != "ok" and not (_no_valid_hash(impl) and _has_type(t_yaml(case["t"]), "hashes_fields")):
         return {"op": "ping"}
     rule = case["rule"]
     qs = []
-    for q in impl["queries"]:
+    for q in impl.get("queries", []):
         try:
             qs.append(qsyntax.tokenize(q))
         except qsyntax.Tokenize as e:
@@ -851,6 +974,17 @@ def judge(case, impl, reply):
     fid = "D3" if _d3(case) else ("D35" if (k in ("replace", "replace_id") and _has_number(case["rule"]["dets"])) else None)
     if io.startswith("other:"):
         return Verdict("violation", f"{io}: {impl.get('msg')} for transformation {t_yaml(case['t'])} on {case['rule']['dets']}", True, key, finding=fid, tags=tuple(tags))
+    if k == "rand" and _has_type(case["t"]["yaml"], "hashes_fields"):
+        tags.append("stream:hash")
+        if _no_valid_hash(impl):
+            if reply.get("rwErr") == "noValidHash":
+                return Verdict("ok", "", True, key, tags=tuple(tags + ["hash:no-valid-entry"]))
+            if "doc" in reply:
+                return Verdict("violation", (f"transformation {t_yaml(case['t'])} on {case['rule']['dets']}: the pipeline fails ({impl.get('msg')}) although every hash list it applies to has an "
+                                             f"entry of a valid algorithm; the documented rewrite is {show_doc_part('dets', reply['doc']['dets'])}"), True, key, tags=tuple(tags))
+        elif io == "ok" and reply.get("rwErr") == "noValidHash":
+            return Verdict("violation", (f"transformation {t_yaml(case['t'])} on {case['rule']['dets']}: a hash list without any entry of a valid algorithm is documented to fail, "
+                                         f"the pipeline emitted {impl['queries']}"), True, key, tags=tuple(tags))
     if io != "ok":
         return Verdict("ok", "", False, key, tags=tuple(tags + ["unjudged:" + io.split(":")[0]]))
     if impl["ref"] is not None and impl["queries"] != impl["ref"]:
